@@ -406,8 +406,8 @@ func CheckC05(r *core.Run) {
 		traces = append(traces, replayPQ(r, "PQReplay_t.cfg", 10)...)
 		traces = append(traces, replayPQSim(r, "PQReplay_sim.cfg", 300, 70, 10)...)
 	} else {
-		traces = append(traces, replayPQ(r, "PQReplay_q.cfg", 2)...)
-		traces = append(traces, replayPQSim(r, "PQReplay_sim.cfg", 25, 60, 5)...)
+		traces = append(traces, replayPQ(r, "PQReplay_q.cfg", 4)...)
+		traces = append(traces, replayPQSim(r, "PQReplay_sim.cfg", 12, 60, 5)...)
 	}
 	pqSample(r, traces)
 	{
@@ -433,7 +433,9 @@ func CheckC17(r *core.Run) {
 		}
 	})
 	traces := queueHistories(r, cfgs)
-	// Pending / Active after every flush, ACK and restart of every behaviour of PQ.tla (small bounds)
+	// Pending / Active after every flush, ACK and restart of the behaviours of PQ.tla (small bounds;
+	// every third path in the quick tier - C05 replays all of them)
+	pqReplayStride = r.Pick(3, 1)
 	traces = append(traces, replayPQ(r, "PQReplay_q.cfg", 4)...)
 	pqSample(r, traces)
 	judgePQ(r, traces)
@@ -643,6 +645,8 @@ func CheckC12(r *core.Run) {
 	}
 	// the pages the queue holds after every flush, ACK and restart of every behaviour of PQ.tla
 	// (small bounds, unbounded file): the real inuse counter must equal the specification's
+	// (every third path in the quick tier - C05 replays all of them)
+	pqReplayStride = r.Pick(3, 1)
 	traces = append(traces, replayPQ(r, "PQReplay_q.cfg", 4)...)
 	pqSample(r, traces)
 	judgePQ(r, traces, "C05", "C06")
